@@ -212,7 +212,7 @@ KeyStrs(x) == CASE x.k = "map"  -> {e.key.v : e \in {e2 \in x.v : e2.key.k = "st
                 [] OTHER -> {}
 
 RetypeAtoms == {Nil, B(TRUE), N(0), N(-1), F(3), S("x"), S(""), M({}), L(<<>>)}
-FreshKeys   == {S("zz"), N(7)}
+FreshKeys(sel) == IF sel.k = "num" THEN {S("zz"), N(7), N(-5), N(-1), N(0)} ELSE {S("zz"), N(7)}
 Mu(op, p, arg) == [op |-> op, path |-> p, arg |-> arg]
 MutsAt(x, p, pool) ==
     LET par == NodeAt(x, Front(p))
@@ -221,7 +221,7 @@ MutsAt(x, p, pool) ==
     IN {Mu("delete", p, Nil)}
        \cup (IF par.k = "list" THEN {Mu("duplicate", p, Nil)}
              ELSE IF S("zz2") \in Sels(par) THEN {} ELSE {Mu("duplicate", p, S("zz2"))})
-       \cup (IF par.k = "map" THEN {Mu("rename", p, a) : a \in FreshKeys \ Sels(par)} ELSE {})
+       \cup (IF par.k = "map" THEN {Mu("rename", p, a) : a \in FreshKeys(sel) \ Sels(par)} ELSE {})
        \cup {Mu("retype", p, a) : a \in RetypeAtoms \ {c}}
        \cup (IF c.k = "str" THEN {Mu("repoint", p, S(s)) : s \in pool \ {c.v}} ELSE {})
 MutsOn(x, p) ==
@@ -270,9 +270,27 @@ BaseSmallB  == TScope("B", {KO("B", TObject("B", {P("r", TRef("B", "", None)), P
 BaseSchema  == TSchema({KV("s1", Step("s1", BaseSmall, {KV("ok", Out(BaseOne, Some(Dn), FALSE))},
                                       {KV("h", Sig("h", BaseSmall, None))}, {KV("h", Sig("h", BaseSmallB, None))}, None))})
 BaseSchemaS == TSchema({KV("s1", Step("s1", BaseTiny, {KV("ok", Out(BaseSmall, None, TRUE))}, {}, {}, Some(Dn)))})
-Bases == IF Tier = "quick" THEN {BaseRich, BaseOne, BaseSmall, BaseSchema}
+\* units (with multipliers) on an integer, a float and an integer enum: the multiplier keys get mutated
+BaseUnits == TScope("A", {KO("A", TObject("A", {P("i", TInt(Some(0), Some(5), Some(U1))),
+                                                P("f", TFloat(Some(-3), Some(9), Some(U1))),
+                                                P("e", TEnumI({EV(N(1), Some(D0))}, Some(U1)))}, FALSE, "map"))})
+\* chains of single-property objects linked by references: a non-mapping value handed to the root travels
+\* down the chain through the single-property shorthand; it must come back with an error or a value
+Single(id, t) == KO(id, TObject(id, {P("p", t)}, FALSE, "map"))
+RefTo(id) == TRef(id, "", None)
+Chains == {TScope("A", {Single("A", RefTo("A"))}),                                              \* A -> A
+           TScope("A", {Single("A", RefTo("B")), Single("B", RefTo("A"))}),                     \* A -> B -> A
+           TScope("A", {Single("A", RefTo("B")), Single("B", RefTo("B"))}),                     \* A -> B -> B
+           TScope("A", {Single("A", RefTo("B")), Single("B", RefTo("C")), Single("C", RefTo("B"))}),   \* A -> B -> C -> B
+           TScope("A", {Single("A", RefTo("B")), Single("B", RefTo("C")), Single("C", TStr0)})}        \* A -> B -> C, ends
+ChainSchema == TSchema({KV("s1", Step("s1", TScope("A", {Single("A", RefTo("B")), Single("B", RefTo("B"))}),
+                                      {KV("ok", Out(TScope("A", {Single("A", RefTo("B")), Single("B", RefTo("C")), Single("C", RefTo("B"))}),
+                                                    None, FALSE))}, {}, {}, None))})
+\* bases that are exercised as they are (quick tier: not mutated)
+PlainBases == IF Tier = "quick" THEN Chains \cup {ChainSchema} ELSE {}
+Bases == IF Tier = "quick" THEN {BaseRich, BaseOne, BaseSmall, BaseSchema, BaseUnits}
          ELSE IF MaxMut = 1 THEN {BaseRich, BaseOne, BaseOneI, BaseEnum, BaseEnumI, BaseInner, BaseSmall, BaseTiny,
-                                  BaseFloat, BaseSchema, BaseSchemaS}
+                                  BaseFloat, BaseSchema, BaseSchemaS, BaseUnits, ChainSchema} \cup Chains
          ELSE {BaseSmall, BaseTiny, BaseSchemaS}
 
 \* grammar-free trees: atoms, and one or two levels of containers under the keys the entry points look for
@@ -289,14 +307,15 @@ NoSrc == [kind |-> "none"]
 (* state machine                                                            *)
 (* ------------------------------------------------------------------------ *)
 Init ==
-    /\ n = 0 /\ lab = <<>> /\ pp = NoPick
-    /\ \/ /\ st = "bind" /\ src = NoSrc /\ tgt = "scope" /\ d = Nil
-       \/ /\ st = "desc" /\ Mode = "c09"
+    /\ lab = <<>> /\ pp = NoPick
+    /\ \/ /\ st = "bind" /\ src = NoSrc /\ tgt = "scope" /\ d = Nil /\ n = 0
+       \/ /\ st = "desc" /\ Mode = "c09" /\ n = 0
           /\ src \in Universe
           /\ tgt = Target(src) /\ d = Describe(src)
        \/ /\ st = "desc" /\ Mode = "c10"
-          /\ \/ src \in Bases /\ tgt = Target(src) /\ d = Describe(src)
-             \/ src = NoSrc /\ tgt \in {"scope", "schema"} /\ d \in GFTrees
+          /\ \/ src \in Bases /\ n = 0 /\ tgt = Target(src) /\ d = Describe(src)
+             \/ src \in PlainBases /\ n = MaxMut /\ tgt = Target(src) /\ d = Describe(src)
+             \/ src = NoSrc /\ n = 0 /\ tgt \in {"scope", "schema"} /\ d \in GFTrees
 
 Pick ==
     /\ st = "desc" /\ n < MaxMut /\ pp = NoPick
@@ -349,7 +368,7 @@ AcceptedImpliesUsable0 ==
       [] st = "rejected" -> c.stage # "usable"
       [] OTHER -> TRUE
 \* the base descriptions are valid ones
-BasesValid == (IsCase /\ n = 0 /\ src # NoSrc) => Classify(tgt, d).stage = "usable"
+BasesValid == (IsCase /\ lab = <<>> /\ src # NoSrc) => Classify(tgt, d).stage = "usable"
 
 (* ------------------------------------------------------------------------ *)
 (* export: compact JSON of a tree                                           *)
@@ -370,10 +389,10 @@ TokAttr(s) == [tok |-> s, id |-> s \notin BadIds /\ ~IsFloatTok(s), pat |-> s \n
                quoted |-> QuotedOK(s),
                word |-> IF s \in TrueWords THEN "t" ELSE IF s \in FalseWords THEN "f" ELSE "-",
                int |-> IF s \in DOMAIN IntOfStr THEN Some(IntOfStr[s]) ELSE None]
-AllDescs == IF Mode = "c09" THEN {Describe(s) : s \in Universe} ELSE {Describe(s) : s \in Bases} \cup GFTrees
+AllDescs == IF Mode = "c09" THEN {Describe(s) : s \in Universe} ELSE {Describe(s) : s \in Bases \cup PlainBases} \cup GFTrees
 AllToks == UNION {Strs(x) \cup KeyStrs(x) : x \in AllDescs}
            \cup UNION {Strs(a) : a \in RetypeAtoms} \cup {"nowhere", "zz", "zz2"}
-           \cup {ToString(i) : i \in {-1, 0, 1, 2, 7, 1024}}
+           \cup {ToString(i) : i \in {-5, -1, 0, 1, 2, 7, 1024}}
 
 XfSample == M({E(S("a"), N(5)), E(S("b"), N(-1)), E(S("c"), F(3)), E(S("d"), F(4)), E(S("e"), M({})),
                E(N(1024), L(<<B(TRUE), S("x"), N(0), Nil>>))})
